@@ -4,7 +4,8 @@ import random
 
 WS = [b' ', b'\t', b'\n', b'\r']
 CHAR_POOL = [0x20, 0x21, 0x41, 0x7e, 0x7f, 0x80, 0xe9, 0x7ff, 0x800, 0x2028, 0x2029, 0xd7ff, 0xe000, 0xfffd, 0xffff, 0x10000, 0x1f603, 0x10ffff,
-             0x22, 0x5c, 0x2f, 0x08, 0x0c, 0x0a, 0x0d, 0x09, 0x00, 0x01, 0x1f, 0x61, 0x62, 0x63, 0x30]
+             0x22, 0x5c, 0x2f, 0x08, 0x0c, 0x0a, 0x0d, 0x09, 0x00, 0x01, 0x1f, 0x61, 0x62, 0x63, 0x30,
+             0x0b, 0x07, 0x1b, 0x0e, 0x02, 0x03, 0x04, 0x05, 0x06, 0x10, 0x11, 0x12, 0x13, 0x14, 0x15, 0x16, 0x17, 0x18, 0x19, 0x1a, 0x1c, 0x1d, 0x1e, 0x0f, 0x85, 0xa0, 0xad, 0x300, 0xfeff, 0xfffe]      # every C0 control, NEL, NBSP, soft hyphen, a combining mark, BOM
 ESC = {0x22: b'"', 0x5c: b'\\', 0x2f: b'/', 0x08: b'b', 0x0c: b'f', 0x0a: b'n', 0x0d: b'r', 0x09: b't'}
 INT_POOL = [0, 1, 7, 10, 255, 2**31, 2**32, 2**53 - 1, 2**53, 2**53 + 1, 2**63 - 1, 2**63, 2**63 + 1, 2**64 - 1, 2**64, 2**64 + 1, 10**19, 10**20, 10**30]
 
